@@ -3,7 +3,7 @@ from typing import Tuple
 
 import pandas as pd
 import numpy_financial as npf
-from scipy.optimize import newton
+from scipy.optimize import brentq, newton
 
 from . import xl, xlerrors, func_xltypes
 
@@ -21,7 +21,48 @@ def IRR(
     """
     # `guess` is not used, but unnecessary, since it is a pure perforamnce
     # optimization.
-    return npf.irr(xl.flatten(values))
+    values = xl.flatten(values)
+    rate = _single_irr(values)
+    return npf.irr(values) if rate is None else rate
+
+
+def _single_irr(values):
+    """The rate of return of cash flows that change their sign exactly once.
+
+    Such flows have exactly one rate above -100%. `npf.irr` looks for it among
+    the roots of a polynomial, which loses digits - or the root - on long
+    series whose amounts differ by many orders of magnitude; here it is
+    bracketed and bisected instead. Returns None for any other flows.
+    """
+    try:
+        flows = [float(value) for value in values]
+    except (TypeError, ValueError):
+        return None
+    signs = [flow < 0 for flow in flows if flow != 0]
+    if sum(a != b for a, b in zip(signs, signs[1:])) != 1:
+        return None
+
+    # In terms of the discount factor x = 1 / (1 + rate) the net present
+    # value is the polynomial sum(flow_i * x^i), with one root above 0.
+    def npv(x):
+        total = 0.0
+        for flow in reversed(flows):
+            total = total * x + flow
+        return total
+
+    first = next(flow for flow in flows if flow != 0)
+    upper = 1.0
+    while (npv(upper) < 0) == (first < 0):
+        upper *= 2
+        if upper > 1e300:
+            return None
+    try:
+        x = brentq(npv, 0.0, upper, xtol=1e-300, rtol=1e-15, maxiter=2000)
+    except (RuntimeError, ValueError, OverflowError):
+        return None
+    if x <= 0:
+        return None
+    return 1 / x - 1
 
 
 @xl.register()
